@@ -74,8 +74,12 @@ def main():
         for p, v in res.items():
             print(f"{name:28s} {p} {v['status']:18s} {v.get('wall_s', '')}s {v.get('line', '')[:110]}")
             rows.append((name, p, v['status'], v.get('line', '')))
-    missed = [r for r in rows if not str(r[2]).startswith('caught')]
-    print(f'\n{len(rows) - len(missed)}/{len(rows)} caught')
+    by = {}
+    for name, p, st, line in rows:
+        by.setdefault(name, []).append(str(st).startswith('caught'))
+    caught = [n for n, v in by.items() if any(v)]
+    print(f'\n{len(caught)}/{len(by)} seeded changes caught by at least one of their checks; missed: '
+          f'{sorted(n for n in by if n not in caught)}')
     return 0
 
 
